@@ -33,10 +33,10 @@ BUDGET = {
     'thorough': dict(examples=2000, time_s=3300, shrink=True, shrink_cap_s=240),
 }
 
-SAMPLE_KINDS = ['ok_mef', 'ok_mef_wide', 'ok_rfi', 'ok_one', 'ok_400', 'ok_float', 'ok_float2', 'missing', 'small', 'gf_neg', 'gf_big', 'gf_just_above', 'gf_just_below', 'bad_units', 'beads_failed',
+SAMPLE_KINDS = ['ok_mef', 'ok_mef_wide', 'ok_rfi', 'ok_one', 'ok_400', 'ok_float', 'ok_float2', 'missing', 'missing_isdir', 'missing_notdir', 'small', 'gf_neg', 'gf_big', 'gf_just_above', 'gf_just_below', 'bad_units', 'beads_failed',
                 'no_curve', 'other_instrument', 'other_instrument_lc', 'other_amp', 'other_volt', 'other_volt0', 'bad_units_sub']
 HEALTHY = ('ok_mef', 'ok_mef_wide', 'ok_rfi', 'ok_one', 'ok_400', 'ok_float', 'ok_float2')
-BEAD_KINDS = ['ok', 'missing', 'small', 'gf_neg', 'gf_big', 'unequal_mef']
+BEAD_KINDS = ['ok', 'missing', 'missing_isdir', 'small', 'gf_neg', 'gf_big', 'unequal_mef', 'unequal_mef_mid']
 
 _FIX = {}
 
@@ -49,8 +49,8 @@ def fixture(seed):
     base = os.path.join(workdir(), 'c11_%d' % seed)
     shutil.rmtree(base, ignore_errors=True)
     os.makedirs(base)
-    insts = [dict(id='I1', fsc='FSC-H', ssc='SSC-H', fl=['FL1-H', 'FL2-H'], time='Time'),
-             dict(id='I2', fsc='FSC-A', ssc='SSC-A', fl=['FL1-H', 'FL2-H'], time='TIME')]
+    insts = [dict(id='I1', fsc='FSC-H', ssc='SSC-H', fl=['FL1-H', 'FL2-H', 'FL3-H'], time='Time'),
+             dict(id='I2', fsc='FSC-A', ssc='SSC-A', fl=['FL1-H', 'FL2-H', 'FL3-H'], time='TIME')]
     files = {
         'cells_a.fcs': dict(kind='cells', instrument='I1', seed=seed + 1, n=600, datatype='I'),
         'cells_b.fcs': dict(kind='cells', instrument='I1', seed=seed + 2, n=520, datatype='I'),
@@ -58,8 +58,8 @@ def fixture(seed):
         'cells_f2.fcs': dict(kind='cells', instrument='I1', seed=4 * seed + 41, n=610, datatype='F'),   # bit 1 clear: non-positive FL2 values -> a warning note
         'cells_400.fcs': dict(kind='cells', instrument='I1', seed=seed + 13, n=400, datatype='I'),     # exactly the minimum
         'cells_small.fcs': dict(kind='cells', instrument='I1', seed=seed + 4, n=380, datatype='I'),
-        'cells_volt.fcs': dict(kind='cells', instrument='I1', seed=seed + 5, n=500, datatype='I', volt=[500, 550, 999, 650]),
-        'cells_volt0.fcs': dict(kind='cells', instrument='I1', seed=seed + 11, n=500, datatype='I', volt=[500, 550, 0, 650]),
+        'cells_volt.fcs': dict(kind='cells', instrument='I1', seed=seed + 5, n=500, datatype='I', volt=[500, 550, 999, 650, 700]),
+        'cells_volt0.fcs': dict(kind='cells', instrument='I1', seed=seed + 11, n=500, datatype='I', volt=[500, 550, 0, 650, 700]),
         'cells_wide.fcs': dict(kind='cells', instrument='I1', seed=seed + 12, n=540, datatype='I', extra_first=True),
         'cells_lin.fcs': dict(kind='cells', instrument='I1', seed=seed + 6, n=500, datatype='I', amp='lin'),
         'cells_i2.fcs': dict(kind='cells', instrument='I2', seed=seed + 7, n=500, datatype='I'),
@@ -95,6 +95,10 @@ def sample_row(kind, sid):
         r.update(file='cells_f2.fcs', units={'FL1-H': 'RFI', 'FL2-H': 'au'}, beads=None, gate_fraction=0.3)
     elif kind == 'missing':
         r.update(file='no_such_file.fcs')
+    elif kind == 'missing_isdir':
+        r.update(file='.')                             # the cell names a folder, not a file
+    elif kind == 'missing_notdir':
+        r.update(file='cells_a.fcs/cells_b.fcs')       # a path that runs through an existing file
     elif kind == 'small':
         r.update(file='cells_small.fcs')
     elif kind == 'gf_neg':
@@ -225,9 +229,15 @@ def beads_table(kinds):
     rows = []
     for i, k in enumerate(kinds):
         r = {'ID': 'B%d' % (i + 1), 'Instrument ID': 'I1', 'File Path': 'beads1.fcs', 'FL1-H MEF Values': lad, 'FL2-H MEF Values': None,
-             'Gate Fraction': 0.3, 'Clustering Channels': 'FL1-H'}
+             'FL3-H MEF Values': None, 'Gate Fraction': 0.3, 'Clustering Channels': 'FL1-H'}
         if k == 'missing':
             r['File Path'] = 'no_beads_here.fcs'
+        elif k == 'missing_isdir':
+            r['File Path'] = '.'
+        elif k == 'unequal_mef_mid':
+            # three calibrated channels; only the middle one has another number of values
+            r['FL2-H MEF Values'] = ', '.join(lad.split(', ')[:-1])
+            r['FL3-H MEF Values'] = lad
         elif k == 'small':
             r['File Path'] = 'beads_small.fcs'
         elif k == 'gf_neg':
@@ -237,9 +247,10 @@ def beads_table(kinds):
         elif k == 'unequal_mef':
             r['FL2-H MEF Values'] = '1, 2, 3'
         rows.append(r)
-    t = pd.DataFrame(rows, columns=['ID', 'Instrument ID', 'File Path', 'FL1-H MEF Values', 'FL2-H MEF Values', 'Gate Fraction',
-                                    'Clustering Channels']).set_index('ID')
-    t['FL2-H MEF Values'] = t['FL2-H MEF Values'].astype(object).where(t['FL2-H MEF Values'].notnull(), None)
+    t = pd.DataFrame(rows, columns=['ID', 'Instrument ID', 'File Path', 'FL1-H MEF Values', 'FL2-H MEF Values', 'FL3-H MEF Values',
+                                    'Gate Fraction', 'Clustering Channels']).set_index('ID')
+    for c_ in ('FL2-H MEF Values', 'FL3-H MEF Values'):
+        t[c_] = t[c_].astype(object).where(t[c_].notnull(), None)
     return t
 
 
